@@ -34,3 +34,22 @@ package p2p
 //@ // C05: the trace context of a gossiped envelope is attacker-supplied: extracting it never panics
 //@ func ExtractTraceContext
 //@   ensures true
+//@
+//@ // C05: the dispatch step between the topic validator and the registered handlers: for any decoded
+//@ // message it calls only registered (non-nil) handler functions and never panics itself; a message type
+//@ // without a handler is answered with ErrNoMessageHandler and nothing else
+//@ func (*P2PMessaging).Handle
+//@   requires m != nil && msg != nil
+//@   requires forall t Str, i :: has(m.handlerRegistry, t) && 0 <= i && i < len(m.handlerRegistry[t]) ==> m.handlerRegistry[t][i] != nil
+//@   ensures true
+//@   opt frame = off
+//@
+//@ // C05: producer side of Handle's precondition - registering a non-nil handler function keeps every
+//@ // registered handler function non-nil (an entry is appended, none is replaced by something else)
+//@ func (*P2PMessaging).AddHandlerFunc
+//@   requires m != nil && m.handlerRegistry != nil && m.gossipTopicNames != nil && handlerFunc != nil
+//@   requires forall k :: 0 <= k && k < len(protos) ==> protos[k] != nil
+//@   requires forall t Str, i :: has(m.handlerRegistry, t) && 0 <= i && i < len(m.handlerRegistry[t]) ==> m.handlerRegistry[t][i] != nil
+//@   invariant@1 forall t Str, i :: has(m.handlerRegistry, t) && 0 <= i && i < len(m.handlerRegistry[t]) ==> m.handlerRegistry[t][i] != nil
+//@   ensures forall t Str, i :: has(m.handlerRegistry, t) && 0 <= i && i < len(m.handlerRegistry[t]) ==> m.handlerRegistry[t][i] != nil
+//@   opt frame = off
